@@ -76,7 +76,7 @@ example : Int.sign ((fun t : Int => t - 700) 1000) ≠ Int.sign ((fun t : Int =>
 /-! ## one call of `Speaker.listen` -/
 
 theorem fire_some {l : Lst} {i : Nat} {p : Option Int} {t : Int} {e : Ev} :
-    fire l i p t = some e ↔ ∃ q, p = some q ∧ l.guard t = true ∧ Int.sign (l.f t) ≠ Int.sign (l.f q) ∧
+    fire l i p t = some e ↔ ∃ q, p = some q ∧ l.guard q t = true ∧ Int.sign (l.f t) ≠ Int.sign (l.f q) ∧
       e = ⟨bisect l.f q t, i, l.label q (bisect l.f q t)⟩ := by
   cases p with
   | none => simp [fire]
@@ -92,7 +92,7 @@ theorem fire_some {l : Lst} {i : Nat} {p : Option Int} {t : Int} {e : Ev} :
       · cases h
     · rintro ⟨q', hq, hg, hs, rfl⟩
       cases hq
-      have hc : (l.guard t && (Int.sign (l.f t) != Int.sign (l.f q))) = true := by
+      have hc : (l.guard q t && (Int.sign (l.f t) != Int.sign (l.f q))) = true := by
         simp only [Bool.and_eq_true, bne_iff_ne, ne_eq]; exact ⟨hg, hs⟩
       unfold fire
       simp only
@@ -122,7 +122,7 @@ theorem mem_rawEventsU {ls : List Lst} {i : Nat} {p : Option Int} {t : Int} {e :
 sample and whose watched quantity has different signs at the two samples; its date is the `_bisect` date and its label
 is that listener's `info` -/
 theorem raw_event_spec {ls : List Lst} {p t : Int} {e : Ev} (h : e ∈ rawEventsU ls 0 (some p) t) :
-    ∃ l, ls[e.idx]? = some l ∧ l.guard t = true ∧ Int.sign (l.f t) ≠ Int.sign (l.f p) ∧
+    ∃ l, ls[e.idx]? = some l ∧ l.guard p t = true ∧ Int.sign (l.f t) ≠ Int.sign (l.f p) ∧
       e.t = bisect l.f p t ∧ e.label = l.label p e.t := by
   obtain ⟨k, l, hk, hf⟩ := mem_rawEventsU.1 h
   obtain ⟨q, hq, hg, hs, rfl⟩ := fire_some.1 hf
@@ -134,7 +134,7 @@ an event **iff** it exists, its own visibility condition holds at the new sample
 watched quantity differs between the two samples.  Soundness is `→`, completeness w.r.t. sampling is `←`. -/
 theorem event_iff_sign_change (ls : List Lst) (p t : Int) (k : Nat) :
     (∃ e ∈ rawEventsU ls 0 (some p) t, e.idx = k) ↔
-      ∃ l, ls[k]? = some l ∧ l.guard t = true ∧ Int.sign (l.f t) ≠ Int.sign (l.f p) := by
+      ∃ l, ls[k]? = some l ∧ l.guard p t = true ∧ Int.sign (l.f t) ≠ Int.sign (l.f p) := by
   constructor
   · rintro ⟨e, he, rfl⟩
     obtain ⟨l, h1, h2, h3, -⟩ := raw_event_spec he
@@ -163,7 +163,7 @@ theorem event_unique (ls : List Lst) (i : Nat) (p : Option Int) (t : Int) :
       simp; omega
     · exact ih (i + 1)
 
-example : ∃ e ∈ rawEventsU [⟨fun t => t - 700, fun _ => true, fun _ _ => "x"⟩] 0 (some 0) 1000, e.idx = 0 :=
+example : ∃ e ∈ rawEventsU [⟨fun t => t - 700, fun _ _ => true, fun _ _ => "x"⟩] 0 (some 0) 1000, e.idx = 0 :=
   (event_iff_sign_change _ 0 1000 0).2 ⟨_, rfl, rfl, by decide⟩
 
 /-- between-ness and sharpness for every result of one `listen` call (forward step) -/
@@ -221,19 +221,24 @@ theorem alias_times (t : Int) (evs : List Ev) : (applyAlias t evs).1.map Ev.t = 
 theorem alias_id {t : Int} {evs : List Ev} (h : ∀ e ∈ evs, e.t ≠ t) : applyAlias t evs = (evs, none) := by
   unfold applyAlias; rw [lastAt_none.2 h]
 
-/-- the dates of the event items of one block are the dates of the results, sorted -/
+/-- the dates of the event items of one block are the dates of the results, sorted in the direction of the iteration
+(`sorted(results, key=date, reverse=backward)`): ascending for a forward step, descending for a backward one -/
 theorem listenU_times (ls : List Lst) (p : Option Int) (t : Int) :
     ∃ evs : List Ev, (listenU ls p t).map Item.t = evs.map Ev.t ++ [t] ∧
-      evs.Pairwise (fun a b => a.t ≤ b.t) ∧ (evs.map Ev.t).Perm ((rawEventsU ls 0 p t).map Ev.t) := by
-  refine ⟨sortEv (applyAlias t (rawEventsU ls 0 p t)).1, ?_, sorted_sortEv _, ?_⟩
+      (backwardU p t = false → evs.Pairwise (fun a b => a.t ≤ b.t)) ∧
+      (backwardU p t = true → evs.Pairwise (fun a b => b.t ≤ a.t)) ∧
+      (evs.map Ev.t).Perm ((rawEventsU ls 0 p t).map Ev.t) := by
+  refine ⟨sortDir (backwardU p t) (applyAlias t (rawEventsU ls 0 p t)).1, ?_, ?_, ?_, ?_⟩
   · simp [listenU, List.map_map, Function.comp_def]
+  · intro h; rw [h]; exact sorted_sortEv _
+  · intro h; rw [h]; exact sorted_sortEvDesc _
   · rw [← alias_times t (rawEventsU ls 0 p t)]
-    exact (perm_sortEv _).map Ev.t
+    exact (perm_sortDir _ _).map Ev.t
 
 /-- **listen_exact**: when no result is the sample object itself, the event items of the block are exactly the results
-(date, listener, label), stably sorted by date, followed by the sample without event. -/
+(date, listener, label), stably sorted by date in the direction of the iteration, followed by the sample without event. -/
 theorem listen_exact (ls : List Lst) (p : Option Int) (t : Int) (h : ∀ e ∈ rawEventsU ls 0 p t, e.t ≠ t) :
-    listenU ls p t = (sortEv (rawEventsU ls 0 p t)).map (fun e => ⟨e.t, some (e.idx, e.label)⟩) ++ [⟨t, none⟩] := by
+    listenU ls p t = (sortDir (backwardU p t) (rawEventsU ls 0 p t)).map (fun e => ⟨e.t, some (e.idx, e.label)⟩) ++ [⟨t, none⟩] := by
   simp [listenU, alias_id h]
 
 theorem rawEventsU_none (ls : List Lst) (i : Nat) (t : Int) : rawEventsU ls i none t = [] := by
@@ -243,7 +248,7 @@ theorem rawEventsU_none (ls : List Lst) (i : Nat) (t : Int) : rawEventsU ls i no
 
 /-- the first sample of an iteration comes without events -/
 theorem listenU_none (ls : List Lst) (t : Int) : listenU ls none t = [⟨t, none⟩] := by
-  simp [listenU, rawEventsU_none, applyAlias, lastAt, sortEv]
+  simp [listenU, rawEventsU_none, applyAlias, lastAt, sortEv, sortDir, backwardU]
 
 /-! ## the whole stream -/
 
@@ -277,7 +282,13 @@ theorem go_uniform (ls : List Lst) (p : Option Int) (samples : List Int) :
     have : (List.replicate ls.length p).map (fun _ => some t) = List.replicate ls.length (some t) := by simp
     simp only [go, goU, this, ih]
     congr 1
-    simp [listen, listenU, rawEvents_uniform]
+    cases hls : ls with
+    | nil => simp [listen, listenU, rawEvents, rawEventsU, applyAlias, lastAt, sortDir, sortEv, sortEvDesc]
+    | cons l ls' =>
+      have hb : isBackward (List.replicate (l :: ls').length p) t = backwardU p t := by
+        cases p <;> simp [isBackward, backwardU, List.replicate_succ]
+      rw [← hls] at hb ⊢
+      simp [listen, listenU, rawEvents_uniform, hb]
 
 /-- **reuse_clean.**  Whatever state (`prev`) the listener objects carry from earlier iterations, `iter` yields the
 stream that fresh listeners yield: `clear_listeners` at the start of `iter` erases all history. -/
@@ -290,7 +301,7 @@ theorem reuse_clean (ls : List Lst) (st : List (Option Int)) (h : st.length = ls
     | cons a l ih => simp [List.replicate_succ, ih]
   rw [iter, this, go_uniform]
 
-example : iter [⟨fun t => t - 700, fun _ => true, fun _ _ => "x"⟩] [some 5] [0, 1000] =
+example : iter [⟨fun t => t - 700, fun _ _ => true, fun _ _ => "x"⟩] [some 5] [0, 1000] =
     [⟨0, none⟩, ⟨700, some (0, "x")⟩, ⟨1000, none⟩] := by decide +kernel
 
 theorem stream_chrono_aux (ls : List Lst) : ∀ (samples : List Int) (p : Option Int),
@@ -304,7 +315,12 @@ theorem stream_chrono_aux (ls : List Lst) : ∀ (samples : List Int) (p : Option
     intro p hs hp
     rw [List.pairwise_cons] at hs
     obtain ⟨ih1, ih2⟩ := ih (some t) hs.2 (fun q hq s hs' => by cases hq; exact hs.1 s hs')
-    obtain ⟨evs, htimes, hsorted, hperm⟩ := listenU_times ls p t
+    obtain ⟨evs, htimes, hsortedF, -, hperm⟩ := listenU_times ls p t
+    have hfw : backwardU p t = false := by
+      cases p with
+      | none => rfl
+      | some q => have := hp q rfl t (by simp); simp [backwardU]; omega
+    have hsorted := hsortedF hfw
     -- every event date of this block is ≤ t, and > q when p = some q
     have hev : ∀ x ∈ evs.map Ev.t, x ≤ t ∧ ∀ q, p = some q → q < x := by
       intro x hx
@@ -335,8 +351,8 @@ theorem stream_chrono_aux (ls : List Lst) : ∀ (samples : List Int) (p : Option
         have := hp q hq t (by simp)
         omega
 
-/-- **stream_chronological.**  For strictly increasing sample dates, any listener list and any prior listener state, the
-dates of the whole output stream (events and samples interleaved) are in chronological (non-decreasing) order. -/
+/-- **stream_chronological** (forward).  For strictly increasing sample dates, any listener list and any prior listener
+state, the dates of the whole output stream (events and samples interleaved) are in chronological (non-decreasing) order. -/
 theorem stream_chronological (ls : List Lst) (st : List (Option Int)) (h : st.length = ls.length)
     (samples : List Int) (hs : samples.Pairwise (· < ·)) :
     ((iter ls st samples).map Item.t).Pairwise (· ≤ ·) := by
@@ -345,93 +361,307 @@ theorem stream_chronological (ls : List Lst) (st : List (Option Int)) (h : st.le
 
 example : ([0, 1000, 2000] : List Int).Pairwise (· < ·) := by decide
 
+theorem stream_chrono_back_aux (ls : List Lst) : ∀ (samples : List Int) (p : Option Int),
+    samples.Pairwise (· > ·) → (∀ q, p = some q → ∀ s ∈ samples, s < q) →
+    ((goU ls p samples).map Item.t).Pairwise (· ≥ ·) ∧
+      (∀ q, p = some q → ∀ x ∈ (goU ls p samples).map Item.t, x < q) := by
+  intro samples
+  induction samples with
+  | nil => intro p _ _; simp [goU]
+  | cons t rest ih =>
+    intro p hs hp
+    rw [List.pairwise_cons] at hs
+    obtain ⟨ih1, ih2⟩ := ih (some t) hs.2 (fun q hq s hs' => by cases hq; exact hs.1 s hs')
+    obtain ⟨evs, htimes, hsortedF, hsortedB, hperm⟩ := listenU_times ls p t
+    have hsorted : evs.Pairwise (fun a b => b.t ≤ a.t) := by
+      cases p with
+      | none =>
+        have : evs = [] := by
+          have h0 := hperm.length_eq
+          simp [rawEventsU_none] at h0
+          exact h0
+        simp [this]
+      | some q =>
+        have := hp q rfl t (by simp)
+        exact hsortedB (by simp [backwardU]; omega)
+    -- every event date of this block is ≥ t, and < q when p = some q
+    have hev : ∀ x ∈ evs.map Ev.t, t ≤ x ∧ ∀ q, p = some q → x < q := by
+      intro x hx
+      have hx' := hperm.mem_iff.1 hx
+      obtain ⟨e, he, rfl⟩ := List.mem_map.1 hx'
+      cases p with
+      | none => simp [rawEventsU_none] at he
+      | some q =>
+        have hqt : t < q := hp q rfl t (by simp)
+        have := listen_event_between_backward he hqt
+        exact ⟨this.1, fun q' hq' => by cases hq'; exact this.2⟩
+    simp only [goU, List.map_append, htimes]
+    refine ⟨?_, ?_⟩
+    · refine List.pairwise_append.2 ⟨List.pairwise_append.2 ⟨?_, by simp, ?_⟩, ih1, ?_⟩
+      · exact (List.pairwise_map).2 hsorted
+      · intro a ha b hb; simp at hb; subst hb; exact (hev a ha).1
+      · intro a ha b hb
+        have hb' := ih2 t rfl b hb
+        rcases List.mem_append.1 ha with ha | ha
+        · have := (hev a ha).1; omega
+        · simp at ha; omega
+    · intro q hq x hx
+      rcases List.mem_append.1 hx with hx | hx
+      · rcases List.mem_append.1 hx with hx | hx
+        · exact (hev x hx).2 q hq
+        · simp at hx; rw [hx]; exact hp q hq t (by simp)
+      · have := ih2 t rfl x hx
+        have := hp q hq t (by simp)
+        omega
+
+/-- **stream_chronological** (backward).  For strictly decreasing sample dates (a backward iteration) the dates of the
+whole output stream are non-increasing: the stream is ordered in the direction of the iteration.
+(False of the code before fix e2c987e, which sorted the events of a step in ascending order whatever the direction;
+it was then listed as an open obligation with the counter-witness `C10W.backward_not_chronological`.) -/
+theorem stream_chronological_backward (ls : List Lst) (st : List (Option Int)) (h : st.length = ls.length)
+    (samples : List Int) (hs : samples.Pairwise (· > ·)) :
+    ((iter ls st samples).map Item.t).Pairwise (· ≥ ·) := by
+  rw [reuse_clean ls st h]
+  exact (stream_chrono_back_aux ls samples none hs (by simp)).1
+
+example : ([2000, 1000, 0] : List Int).Pairwise (· > ·) := by decide
+
 /-! ## labels (listener classes translated from the source) -/
 
+/-- the crossing goes from negative to positive IN THE DIRECTION OF TIME between the samples dated `p` (`listener.prev`)
+and `t` (current sample): forward (`p < t`) the older value is negative, backward (`t < p`) the later value `f p` is positive -/
+def upInTime (f : Int → Int) (p t : Int) : Prop := if p < t then f p < 0 else 0 < f p
+
 /-- **label_matches_direction** for the listeners whose `info` compares with `listener.prev` (`ApsideListener`,
-`StationMaskListener`): if the watched quantity is not exactly zero at the older sample, the label says "upward"
-(Periapsis / AOS) exactly when the quantity was negative there, i.e. when the crossing goes from negative to positive
-in the direction of the iteration. -/
-theorem label_prev_compare (c : Chan) (p t : Int) :
+`StationMaskListener`), in BOTH directions of iteration: if the watched quantity is not exactly zero at `listener.prev`,
+the label says "upward" (Periapsis / AOS) exactly when the quantity goes from negative to positive in the direction of
+time.  (Before fix eddcf76 this held relative to the direction of the iteration only: a periapsis met while iterating
+backward was labelled "Apoapsis".) -/
+theorem label_prev_compare (c : Chan) (p t : Int) (hpt : p ≠ t) :
     let la := mkLst .apside c
     let lm := mkLst .mask c
     (Int.sign (la.f t) ≠ Int.sign (la.f p) → la.f p ≠ 0 →
-      (la.label p (bisect la.f p t) = "Periapsis" ↔ la.f p < 0) ∧
-      (la.label p (bisect la.f p t) = "Apoapsis" ↔ 0 < la.f p)) ∧
+      (la.label p (bisect la.f p t) = "Periapsis" ↔ upInTime la.f p t) ∧
+      (la.label p (bisect la.f p t) = "Apoapsis" ↔ ¬ upInTime la.f p t)) ∧
     (Int.sign (lm.f t) ≠ Int.sign (lm.f p) → lm.f p ≠ 0 →
-      (lm.label p (bisect lm.f p t) = "AOS" ↔ lm.f p < 0) ∧
-      (lm.label p (bisect lm.f p t) = "LOS" ↔ 0 < lm.f p)) := by
+      (lm.label p (bisect lm.f p t) = "AOS" ↔ upInTime lm.f p t) ∧
+      (lm.label p (bisect lm.f p t) = "LOS" ↔ ¬ upInTime lm.f p t)) := by
   intro la lm
   constructor
   · intro hs hp
     have ho := event_other_side la.f p t hs hp
-    generalize hte : bisect la.f p t = te at ho
-    have hl : la.label p te = if la.f te > la.f p then "Periapsis" else "Apoapsis" := by
+    have hbw : bisect la.f p t < p ↔ t < p := by
+      rcases lt_or_gt_of_ne hpt with h | h
+      · have := event_between la.f h; omega
+      · have := event_between_backward la.f h; omega
+    generalize hte : bisect la.f p t = te at ho hbw
+    have hl : la.label p te = if (decide (la.f te > la.f p) != decide (te < p)) then "Periapsis" else "Apoapsis" := by
       simp [la, mkLst, assemble, Generated.ListenSrc.apsideLabel]
     rw [hl]
+    unfold upInTime
     rcases sign_cases (la.f p) with ⟨h1, h2⟩ | ⟨h1, h2⟩ | ⟨h1, h2⟩ <;>
     rcases sign_cases (la.f te) with ⟨h3, h4⟩ | ⟨h3, h4⟩ | ⟨h3, h4⟩ <;>
     first
       | (exfalso; exact hp h1)
       | (exfalso; apply ho; omega)
-      | (have : la.f te > la.f p := by omega
-         simp [this]; omega)
-      | (have : ¬ la.f te > la.f p := by omega
-         simp [this]; omega)
+      | (have h5 : la.f te > la.f p := by omega
+         by_cases h6 : t < p
+         · have h7 : te < p := hbw.2 h6
+           have h8 : ¬ p < t := by omega
+           simp [h5, h7, h8]; omega
+         · have h7 : ¬ te < p := fun h => h6 (hbw.1 h)
+           have h8 : p < t := by omega
+           simp [h5, h7, h8]; omega)
+      | (have h5 : ¬ la.f te > la.f p := by omega
+         by_cases h6 : t < p
+         · have h7 : te < p := hbw.2 h6
+           have h8 : ¬ p < t := by omega
+           simp [h5, h7, h8]; omega
+         · have h7 : ¬ te < p := fun h => h6 (hbw.1 h)
+           have h8 : p < t := by omega
+           simp [h5, h7, h8]; omega)
   · intro hs hp
     have ho := event_other_side lm.f p t hs hp
-    generalize hte : bisect lm.f p t = te at ho
-    have hl : lm.label p te = if lm.f te > lm.f p then "AOS" else "LOS" := by
+    have hbw : bisect lm.f p t < p ↔ t < p := by
+      rcases lt_or_gt_of_ne hpt with h | h
+      · have := event_between lm.f h; omega
+      · have := event_between_backward lm.f h; omega
+    generalize hte : bisect lm.f p t = te at ho hbw
+    have hl : lm.label p te = if (decide (lm.f te > lm.f p) != decide (te < p)) then "AOS" else "LOS" := by
       simp [lm, mkLst, assemble, Generated.ListenSrc.maskLabel]
     rw [hl]
+    unfold upInTime
     rcases sign_cases (lm.f p) with ⟨h1, h2⟩ | ⟨h1, h2⟩ | ⟨h1, h2⟩ <;>
     rcases sign_cases (lm.f te) with ⟨h3, h4⟩ | ⟨h3, h4⟩ | ⟨h3, h4⟩ <;>
     first
       | (exfalso; exact hp h1)
       | (exfalso; apply ho; omega)
-      | (have : lm.f te > lm.f p := by omega
-         simp [this]; omega)
-      | (have : ¬ lm.f te > lm.f p := by omega
-         simp [this]; omega)
+      | (have h5 : lm.f te > lm.f p := by omega
+         by_cases h6 : t < p
+         · have h7 : te < p := hbw.2 h6
+           have h8 : ¬ p < t := by omega
+           simp [h5, h7, h8]; omega
+         · have h7 : ¬ te < p := fun h => h6 (hbw.1 h)
+           have h8 : p < t := by omega
+           simp [h5, h7, h8]; omega)
+      | (have h5 : ¬ lm.f te > lm.f p := by omega
+         by_cases h6 : t < p
+         · have h7 : te < p := hbw.2 h6
+           have h8 : ¬ p < t := by omega
+           simp [h5, h7, h8]; omega
+         · have h7 : ¬ te < p := fun h => h6 (hbw.1 h)
+           have h8 : p < t := by omega
+           simp [h5, h7, h8]; omega)
 
-/-- **label_matches_direction** for `LightListener` (label read from the value at the event state): if the watched
-quantity vanishes neither at the older sample nor at the event state, "exit" is reported exactly for a crossing from
-negative (shadow) to positive (light) in the direction of the iteration, "entry" for the opposite one. -/
-theorem label_light (c : Chan) (u : Bool) (p t : Int) :
+example : upInTime (fun t => t - 500) 0 1000 ∧ upInTime (fun t => t - 500) 1000 0 := by
+  constructor <;> (unfold upInTime; decide)
+
+/-- **label_matches_direction** for `LightListener` (label read from the value at the event state), in both directions
+of iteration: if the watched quantity vanishes neither at `listener.prev` nor at the event state, "exit" is reported
+exactly for a crossing from negative (shadow) to positive (light) in the direction of time, "entry" for the opposite one.
+(Before fix eddcf76: relative to the direction of the iteration.) -/
+theorem label_light (c : Chan) (u : Bool) (p t : Int) (hpt : p ≠ t) :
     let l := mkLst (.light u) c
     Int.sign (l.f t) ≠ Int.sign (l.f p) → l.f p ≠ 0 → l.f (bisect l.f p t) ≠ 0 →
-      (l.label p (bisect l.f p t) = (if u then "Umbra exit" else "Penumbra exit") ↔ l.f p < 0) ∧
-      (l.label p (bisect l.f p t) = (if u then "Umbra entry" else "Penumbra entry") ↔ 0 < l.f p) := by
+      (l.label p (bisect l.f p t) = (if u then "Umbra exit" else "Penumbra exit") ↔ upInTime l.f p t) ∧
+      (l.label p (bisect l.f p t) = (if u then "Umbra entry" else "Penumbra entry") ↔ ¬ upInTime l.f p t) := by
   intro l hs hp hz
   have ho := event_other_side l.f p t hs hp
-  generalize hte : bisect l.f p t = te at ho hz
-  have hl : l.label p te = if u then (if l.f te ≤ 0 then "Umbra entry" else "Umbra exit")
-      else (if l.f te ≤ 0 then "Penumbra entry" else "Penumbra exit") := by
+  have hbw : bisect l.f p t < p ↔ t < p := by
+    rcases lt_or_gt_of_ne hpt with h | h
+    · have := event_between l.f h; omega
+    · have := event_between_backward l.f h; omega
+  generalize hte : bisect l.f p t = te at ho hz hbw
+  have hl : l.label p te = if u then (if (decide (l.f te ≤ 0) != decide (te < p)) then "Umbra entry" else "Umbra exit")
+      else (if (decide (l.f te ≤ 0) != decide (te < p)) then "Penumbra entry" else "Penumbra exit") := by
     simp [l, mkLst, assemble, Generated.ListenSrc.lightLabel]
   rw [hl]
+  unfold upInTime
   rcases sign_cases (l.f p) with ⟨h1, h2⟩ | ⟨h1, h2⟩ | ⟨h1, h2⟩ <;>
   rcases sign_cases (l.f te) with ⟨h3, h4⟩ | ⟨h3, h4⟩ | ⟨h3, h4⟩ <;>
   first
     | (exfalso; exact hp h1)
     | (exfalso; exact hz h3)
     | (exfalso; apply ho; omega)
-    | (have : l.f te ≤ 0 := by omega
-       cases u <;> simp [this] <;> omega)
-    | (have : ¬ l.f te ≤ 0 := by omega
-       cases u <;> simp [this] <;> omega)
+    | (have h5 : l.f te ≤ 0 := by omega
+       by_cases h6 : t < p
+       · have h7 : te < p := hbw.2 h6
+         have h8 : ¬ p < t := by omega
+         cases u <;> simp [h5, h7, h8] <;> omega
+       · have h7 : ¬ te < p := fun h => h6 (hbw.1 h)
+         have h8 : p < t := by omega
+         cases u <;> simp [h5, h7, h8] <;> omega)
+    | (have h5 : ¬ l.f te ≤ 0 := by omega
+       by_cases h6 : t < p
+       · have h7 : te < p := hbw.2 h6
+         have h8 : ¬ p < t := by omega
+         cases u <;> simp [h5, h7, h8] <;> omega
+       · have h7 : ¬ te < p := fun h => h6 (hbw.1 h)
+         have h8 : p < t := by omega
+         cases u <;> simp [h5, h7, h8] <;> omega)
 
-/-- the guards of the station listeners, as translated from the source: `StationMaxListener` and `StationMaskListener`
+/-- the guards of the listeners, as translated from the source: `StationMaxListener` and `StationMaskListener`
 consult `Listener.check` only when the new sample is above the horizon (and, for MAX, not rising any more);
-`RadialVelocityListener(sight=True)` only above the horizon; `AnomalyListener` only within 2 rad of the target value. -/
-theorem guards_spec (c : Chan) (t : Int) :
-    ((mkLst .max c).guard t = true ↔ 0 < c.phi t ∧ c.phidot t ≤ 0) ∧
-    ((mkLst .mask c).guard t = true ↔ 0 < c.phi t) ∧
-    ((mkLst (.radvel true) c).guard t = true ↔ 0 < c.phi t) ∧
-    ((mkLst (.radvel false) c).guard t = true) ∧
-    ((mkLst .node c).guard t = true) ∧ ((mkLst .apside c).guard t = true) ∧ ((mkLst .signal c).guard t = true) ∧
-    (∀ key, (mkLst (.anomaly key) c).guard t = true ↔ ((clampAnom (c.phi t)).natAbs : Int) < 2 * 1048576) := by
+`RadialVelocityListener(sight=True)` only above the horizon; `AnomalyListener` only when the two wrapped differences are
+closer than π (fix 87c6755: the jump of the wrap-around at value ± π is not a crossing). -/
+theorem guards_spec (c : Chan) (p t : Int) :
+    ((mkLst .max c).guard p t = true ↔ 0 < c.phi t ∧ c.phidot t ≤ 0) ∧
+    ((mkLst .mask c).guard p t = true ↔ 0 < c.phi t) ∧
+    ((mkLst (.radvel true) c).guard p t = true ↔ 0 < c.phi t) ∧
+    ((mkLst (.radvel false) c).guard p t = true) ∧
+    ((mkLst .node c).guard p t = true) ∧ ((mkLst .apside c).guard p t = true) ∧ ((mkLst .signal c).guard p t = true) ∧
+    (∀ key, (mkLst (.anomaly key) c).guard p t = true ↔
+      ((clampAnom (c.phi t) - clampAnom (c.phi p)).natAbs : Int) < piUnit) := by
   simp only [mkLst, assemble, Generated.ListenSrc.maxGuard, Generated.ListenSrc.maskGuard, Generated.ListenSrc.radvelGuard,
     Generated.ListenSrc.nodeGuard, Generated.ListenSrc.apsideGuard, Generated.ListenSrc.signalGuard,
     Generated.ListenSrc.anomalyGuard, anomalyUnit, viaF]
   refine ⟨?_, ?_, ?_, ?_, ?_, ?_, ?_, ?_⟩ <;> simp <;> omega
+
+/-- **MAX is a maximum**: `StationMaxListener` emits an event only with the new sample above the horizon and its
+elevation rate non-positive, and — unless that rate is exactly zero there — only for a crossing of the elevation rate from
+positive (or zero) downward IN THE DIRECTION OF THE ITERATION: never for a local minimum of the elevation. -/
+theorem max_only_at_maximum (c : Chan) (p t : Int)
+    (h : check (mkLst .max c) (some p) t = true) :
+    0 < c.phi t ∧ c.phidot t ≤ 0 ∧ (c.phidot t ≠ 0 → 0 ≤ c.phidot p) := by
+  simp only [check, Bool.and_eq_true, bne_iff_ne, ne_eq] at h
+  obtain ⟨hg, hs⟩ := h
+  have hg' := (guards_spec c p t).1.1 hg
+  refine ⟨hg'.1, hg'.2, ?_⟩
+  have hf : (mkLst .max c).f = c.phidot := by
+    funext x; simp [mkLst, assemble, viaF, Generated.ListenSrc.maxF]
+  rw [hf] at hs
+  intro hnz
+  by_contra hneg
+  rcases sign_cases (c.phidot p) with ⟨h1, h2⟩ | ⟨h1, h2⟩ | ⟨h1, h2⟩ <;>
+  rcases sign_cases (c.phidot t) with ⟨h3, h4⟩ | ⟨h3, h4⟩ | ⟨h3, h4⟩ <;>
+  first
+    | omega
+    | (apply hs; omega)
+
+example : check (mkLst .max ⟨fun _ => 5, fun t => 500 - t, fun _ => 0, fun _ => 0, 0⟩) (some 0) 1000 = true := by decide
+
+/-! ## `TopocentricFrame.visibility` -/
+
+/-- **visibility_stream_spec.**  An element of the iteration stream (user listeners followed by the station's own
+AOS/LOS, MAX and — with a mask — mask listeners) is yielded by `visibility` **iff** its elevation is not negative or its
+`event` is an instance of an event class of the station's own listeners; order and multiplicity are those of the
+iteration stream (`visibility` is a `filter` of it). -/
+theorem visibility_stream_spec (user : List (Kind × Chan)) (sta : Chan) (hasMask events : Bool)
+    (st : List (Option Int)) (samples : List Int) :
+    let sk := if events then stationKinds hasMask else []
+    let all := user ++ sk.map (fun k => (k, sta))
+    let stream := iter (all.map (fun kc => mkLst kc.1 kc.2)) st samples
+    (visibility user sta hasMask events st samples).Sublist stream ∧
+    ∀ it, it ∈ visibility user sta hasMask events st samples ↔
+      it ∈ stream ∧ (0 ≤ sta.phi it.t ∨ ∃ i lab kc, it.ev = some (i, lab) ∧ all[i]? = some kc ∧ passes sk kc.1 = true) := by
+  intro sk all stream
+  refine ⟨List.filter_sublist, fun it => ?_⟩
+  simp only [visibility, List.mem_filter]
+  refine and_congr_right (fun _ => ?_)
+  by_cases hphi : sta.phi it.t < 0
+  · have hn : ¬ 0 ≤ sta.phi it.t := by omega
+    simp only [hphi, hn, decide_true, Bool.true_and, Bool.not_not, false_or]
+    cases hev : it.ev with
+    | none => simp
+    | some x =>
+      obtain ⟨i, lab⟩ := x
+      cases hk : all[i]? with
+      | none =>
+        have hk' := hk
+        simp only [all, sk] at hk'
+        simp only [hk']
+        constructor
+        · intro h; cases h
+        · rintro ⟨i', lab', kc', he, hk2, -⟩
+          cases he; rw [hk] at hk2; cases hk2
+      | some kc =>
+        have hk' := hk
+        simp only [all, sk] at hk'
+        simp only [hk']
+        constructor
+        · intro h; exact ⟨i, lab, kc, rfl, hk, h⟩
+        · rintro ⟨i', lab', kc', he, hk2, h⟩
+          cases he; rw [hk] at hk2; cases hk2; exact h
+  · have hp : 0 ≤ sta.phi it.t := by omega
+    simp [hphi, hp]
+
+/-- which events pass the horizon filter: exactly those of AOS/LOS, mask and MAX listeners (the station's own event
+classes and their subclasses — `MaskEvent` is a `SignalEvent`); node, apsis, light, terminator, anomaly and radial
+velocity events of additional listeners are dropped while the satellite is below the horizon. With `events` false no
+event passes. (Tables regenerated from the class definitions of listeners.py.) -/
+theorem passes_spec (hasMask : Bool) (k : Kind) :
+    (passes (stationKinds hasMask) k = true ↔ k = .signal ∨ k = .mask ∨ k = .max) ∧ passes [] k = false := by
+  constructor
+  · cases hasMask <;> cases k <;> simp [passes, stationKinds, eventOf, Kind.pre, kindOfPre?,
+      Generated.ListenSrc.eventAncestors, Generated.ListenSrc.stationListeners, Generated.ListenSrc.stationListenersIfMask,
+      List.lookup]
+  · simp [passes]
+
+/-- `stations_listeners`: AOS/LOS and MAX always, the mask listener when the station has a mask -/
+theorem stationKinds_spec : stationKinds false = [.signal, .max] ∧ stationKinds true = [.signal, .max, .mask] := by
+  constructor <;> decide
+
+example : (visibility [(.node, ⟨fun t => t - 500, fun _ => 1, fun _ => 0, fun _ => 0, 0⟩)]
+    ⟨fun _ => -1, fun _ => 0, fun _ => 0, fun _ => 0, 0⟩ false true [none, none, none] [0, 1000]) = [] := by decide +kernel
 
 end BeyondVerif.C10
